@@ -72,8 +72,29 @@ def run(tier, v, wd, replay=None):
     repo = vlib.scratch_repo(wd, "stub")
     run_vectors(v, wd, repo, "./control/", "TestVerifTaskPoolReplay", infile, tags="verif,dae_stub_ebpf", timeout=1500, outname="tp_replay.json")
     walks = "300" if tier == "quick" else "3000"
-    run_vectors(v, wd, repo, "./control/", "TestVerifTaskPoolRandomWalk", infile, env={"VERIF_TP_WALKS": walks},
+    tracefile = os.path.join(vlib.spec_dir(wd), "trace.ndjson")
+    run_vectors(v, wd, repo, "./control/", "TestVerifTaskPoolRandomWalk", infile, env={"VERIF_TP_WALKS": walks, "VERIF_TRACE_OUT": tracefile},
                 tags="verif,dae_stub_ebpf", timeout=3000, outname="tp_walk.json")
+    # trace validation (code -> specification): the walks' executions, recorded at the yield points, must be behaviours of
+    # UdpTaskPool.tla; TLC evaluates the property layer in every state of the matched behaviour
+    if not os.path.exists(tracefile) or os.path.getsize(tracefile) == 0:
+        raise vlib.Infra("the walks recorded no trace")
+    nlines = sum(1 for _ in open(tracefile))
+    try:
+        r = vlib.tlc(wd, "TraceUdpTaskPool", "TraceUdpTaskPool.cfg", workers=1, timeout=3000)
+    except vlib.Infra as e:
+        if "TraceAccepted" in str(e) or "ostcondition" in str(e):
+            raise vlib.Infra("trace validation: the recorded executions of the real task pool are not accepted by UdpTaskPool.tla "
+                             "(the specification no longer describes the code's steps; no verdict):\n%s" % str(e)[-1500:])
+        raise
+    v.add_tlc(r)
+    if r.violated:
+        v.violation("taskpool-trace:" + r.violated,
+                    "a recorded execution of the real UdpTaskPool (random gated walk) drives UdpTaskPool.tla into a state violating %s:\n%s" % (r.violated, "\n".join(r.trace[:40])),
+                    {"invariant": r.violated, "trace": r.trace[:200]})
+    elif "Postcondition" in r.out and "is false" in r.out:
+        raise vlib.Infra("trace validation: recorded executions not accepted by UdpTaskPool.tla (no verdict):\n%s" % r.out[-1500:])
+    v.coverage["trace_lines_validated"] = nlines
     # second half of the property: the endpoint pool (stable endpoint per source, single dial, failure cache, retirement,
     # exactly-once close, kernel flow entries with adoption) - UdpEndpointPool.tla replayed on the real pool in virtual time
     r = vlib.tlc(wd, "UdpEndpointPool", "UdpEndpointPool_mc.cfg", timeout=1500)
